@@ -1724,3 +1724,57 @@ def r07_5(ctx, repo):
                 '[0, 1]' % keys)
     if n < 1:
         ctx.error(rule, 'no covariate model with a sorted selection found')
+
+
+# -----------------------------------------------------------------------------
+# R07.6 — the covariate-shifted parameters are used per individual
+# -----------------------------------------------------------------------------
+def r07_6(ctx, repo):
+    """`compute_population_parameters` returns one parameter set per
+    individual, shape (n_ids, n_param_per_dim, n_dim).  Every method of
+    CovariatePopulationModel hands the whole tensor on, or walks it
+    individual by individual; a literal index on the individual axis gives
+    everybody the first individual's (covariate-dependent) parameters."""
+    rule = 'R07.6'
+    cls = 'CovariatePopulationModel'
+    NPD = sym('n_param_per_dim')
+    IND = sym('n_individuals')
+
+    class L(ShapeLifter):
+        def _call(self, n, env, fn, depth, owner):
+            f = U(n.func)
+            if f.endswith('_covariate_model.compute_population_parameters'):
+                return Arr([Ax(IND), Ax(NPD), Ax(N_DIM)])
+            if f.endswith('_covariate_model.n_covariates') or f.endswith(
+                    '.n_covariates'):
+                return N_COV
+            return super()._call(n, env, fn, depth, owner)
+    n = 0
+    for m in ('sample', 'compute_log_likelihood', 'compute_sensitivities',
+              'compute_individual_parameters'):
+        fn = repo.cls(cls).methods.get(m)
+        if fn is None:
+            continue
+        construct = '%s.%s' % (cls, m)
+        lf = L(repo, cls, flags={'n_samples is None': False,
+                                 'covariates is None': False})
+        lf.individual_labels = {IND.name}
+        env = {'parameters': Arr([Ax(NPD * N_DIM + N_SEL * N_COV)]),
+               'covariates': Arr([Ax(IND), Ax(N_COV)]),
+               'observations': Arr([Ax(IND), Ax(N_DIM)]),
+               'eta': Arr([Ax(IND), Ax(N_DIM)]),
+               'n_samples': IND, 'self._n_pop': NPD * N_DIM,
+               'self._n_dim': N_DIM, 'self._n_covariates': N_COV}
+        try:
+            lf._block(fn.body, env, fn, 0, cls)
+        except Exception as e:
+            ctx.error(rule, '%s: %s: %s' % (construct, type(e).__name__, e))
+            continue
+        n += 1
+        lf.events = [e for e in lf.events if 'individual axis' in e.msg]
+        if not _emit_events(ctx, rule, repo, cls, fn, lf, construct):
+            ctx.ok(rule, repo.loc(fn, cls, m), construct,
+                   'the per-individual parameter tensor is not indexed with '
+                   'a literal on its individual axis', engine=ENG)
+    if n < 3:
+        ctx.error(rule, 'only %d methods analysed (floor 3)' % n)
